@@ -102,13 +102,13 @@ func zzInitCheck(o, w []byte, z, s int, a []byte) {
 var zzSizes = [8]int{0, 1, 4095, 4096, 4097, 8192, 65536, 65537}
 
 // ZZ_C06_data: read-only and read-write sections of every size in {0, 1, 4095, 4096, 4097,
-// 8192, 65536, 65537} with arbitrary first and last bytes, 0..2 extra heap pages: the memory
+// 8192, 65536, 65537} with arbitrary first and last bytes, 0, 1, 2, 16 or 17 extra heap pages: the memory
 // map and registers are exactly those of appendix A.
 //zz:workers=16 paths=4000 steps=200000000
 func ZZ_C06_data() {
 	o := zzSection("o", zzSizes[zzvt.Range("oClass", 0, 7)])
 	w := zzSection("w", zzSizes[zzvt.Range("wClass", 0, 7)])
-	zzInitCheck(o, w, zzvt.Range("heapPages", 0, 2), 4096, zzSection("a", 3))
+	zzInitCheck(o, w, [5]int{0, 1, 2, 16, 17}[zzvt.Range("heapPages", 0, 4)], 4096, zzSection("a", 3))
 }
 
 // ZZ_C06_stack_args: stack sizes and argument lengths in the same size classes.
